@@ -9,11 +9,10 @@
     `default=v`, `Optional[T]` vs `AnyOf[T, None]` + `_optional`) and class level (any mix of
     equivalent spellings across the fields, with and without `from __future__ import annotations`);
   * `supported` / `fieldSupported` — the decidable region in which the implementation is claimed to
-    honour the equivalences: it excludes exactly the known findings (PEP-604 unions of plain types,
-    `Field | None`, long annotations under the future import, falsy invalid `default=`) plus the places
-    where `typing` itself rewrites the expression (directly nested / duplicate union members) and
-    forms that are not documented spellings (`items=` given a non-field, `|` with a non-field left
-    operand).
+    honour the equivalences: it excludes the one open finding (falsy invalid `default=`), the places
+    where `typing` / Python itself rewrites the expression (directly nested or duplicate members of
+    `Union` / `Optional` / `int | str`) and forms that are not documented spellings (`items=` given a
+    non-field, `|` between a plain type and a `typing` object).
 -/
 import TypedpyModel.Sem.Elaborate
 namespace Typedpy.Elab
@@ -103,16 +102,24 @@ def isFieldExpr : Sp → Bool
 /-- the expression evaluates to a `typing.Union` (which an enclosing `Union` / `Optional` flattens) -/
 def unionLike : Sp → Bool
   | .optional _ | .union _ _ => true
+  /- `int | str` (a PEP-604 union of plain types) is flattened as well; `Field | …` is a Field -/
+  | .pipe x _ => !isFieldExpr x
+  | _ => false
+
+/-- the expression evaluates to a builtin class or a PEP-585 alias (`type.__or__` applies) -/
+def plainSp : Sp → Bool
+  | .builtin k => k != .any
+  | .bareBuiltin _ | .dictBare | .pep585 _ _ | .dict585 _ _ => true
   | _ => false
 
 def isNoneLit : Sp → Bool
   | .noneLit => true
   | _ => false
 
-/-- right operands of `Field | …` that `convert_basic_types` understands -/
+/-- right operands of `plain | …` that give a `types.UnionType`: plain types and bare Field classes -/
 def plainRightSp : Sp → Bool
-  | .builtin _ | .bareBuiltin _ | .dictBare => true
-  | _ => false
+  | .fcls _ | .bareCls _ | .mapBare => true
+  | s => plainSp s
 
 /-- `typing` would not merge the two members -/
 def distinctObjs (tm : TypeMap) (x y : Sp) : Bool :=
@@ -133,7 +140,12 @@ def supported (tm : TypeMap) : Sp → Bool
   | .union x y =>
     supported tm x && !unionLike x && (isNoneLit y || (supported tm y && !unionLike y)) && distinctObjs tm x y
   | .anyOf x y => supported tm x && (isNoneLit y || supported tm y)
-  | .pipe x y => supported tm x && isFieldExpr x && supported tm y && (isFieldExpr y || plainRightSp y)
+  | .pipe x y =>
+    supported tm x
+    && (if isFieldExpr x then isNoneLit y || supported tm y
+        else plainSp x
+             && (isNoneLit y || (supported tm y && plainRightSp y && !unionLike y))
+             && distinctObjs tm x y)
 
 /-! ### field level -/
 
@@ -167,10 +179,10 @@ def defaultOk (O : Oracles) (d : FieldDecl) (v : PyVal) : Bool :=
   | .error _ => false
 
 /-- region in which a field declaration is claimed to elaborate to its meaning -/
-def fieldSupported (O : Oracles) (tm : TypeMap) (future : Bool) (fs : FieldSp) : Bool :=
+def fieldSupported (O : Oracles) (tm : TypeMap) (_future : Bool) (fs : FieldSp) : Bool :=
   supported tm fs.ty
   && (match fs.mode with
-      | .ann => !(future && decide (50 ≤ annLenField fs))
+      | .ann => true
       | .assign => isFieldExpr fs.ty)
   && (match fs.dflt with
       | .none => true
